@@ -22,6 +22,12 @@ struct Ctx {
     problems: Vec<String>,
     // free functions whose body is one expression of their parameters: unfolded at their call sites
     pure_fns: BTreeMap<String, (Vec<String>, Expr)>,
+    // inherent methods of the argument enums that are one expression of `self`: (type, method) -> body
+    pure_methods: BTreeMap<(String, String), Expr>,
+    // types of the value parameters of the function being read
+    cur_params: Vec<(String, String)>,
+    // locals bound to `quoted_string(p).unwrap()`: local -> p
+    quoted_locals: BTreeMap<String, String>,
 }
 
 fn path_str(p: &syn::Path) -> String {
@@ -39,7 +45,7 @@ fn strip_expr(e: &Expr) -> &Expr {
 
 fn is_buffer(e: &Expr) -> bool {
     let t = tokens_of(strip_expr(e)).replace(' ', "");
-    t == "self.args" || t == "cmd" || t == "cmd.args"
+    t == "self.args" || t == "cmd" || t == "cmd.args" || t == "args"
 }
 
 fn merge(ps: Vec<Piece>) -> Vec<Piece> {
@@ -126,6 +132,23 @@ impl Ctx {
                 Some(vec![Piece::Kw(table, var)])
             }
             Expr::Macro(m) if m.mac.path.is_ident("format") => self.format_macro(&m.mac, whr),
+            Expr::Path(p) if p.path.segments.len() == 1 && self.quoted_locals.contains_key(&path_str(&p.path)) => {
+                Some(vec![Piece::Quoted(self.quoted_locals[&path_str(&p.path)].clone())])
+            }
+            Expr::MethodCall(m) if m.args.is_empty() => {
+                // `v.keyword()` where v is a parameter of an enum type with a one-expression inherent method
+                if let Expr::Path(rp) = strip_expr(&m.receiver) {
+                    let v = path_str(&rp.path);
+                    let ty = self.cur_params.iter().find(|(n, _)| *n == v).map(|(_, t)| t.clone())?;
+                    let body = self.pure_methods.get(&(ty, m.method.to_string()))?.clone();
+                    let mut e2 = body;
+                    let by: Expr = syn::parse_str(&v).ok()?;
+                    crate::canon::substitute(&mut e2, "self", &by);
+                    return self.text(&e2, whr);
+                }
+                None
+            }
+            Expr::Unary(u) if matches!(u.op, UnOp::Deref(_)) => self.text(&u.expr, whr),
             Expr::Call(c) => {
                 // a private one-expression function (e.g. a keyword table pulled out into its own fn): unfold it
                 if let Expr::Path(p) = &*c.func {
@@ -176,6 +199,17 @@ impl Ctx {
                             _ => false,
                         },
                         _ => false,
+                    };
+                    let ok = ok || {
+                        // a number: n, r.start(), r.end(), r.start
+                        let fake: Expr = syn::parse_quote!((#a).to_string());
+                        match self.text(&fake, _whr) {
+                            Some(ps) if ps.len() == 1 && matches!(ps[0], Piece::Dec(..)) => {
+                                out.extend(ps);
+                                true
+                            }
+                            _ => false,
+                        }
                     };
                     if !ok {
                         return None;
@@ -358,6 +392,7 @@ fn struct_tail(cx: &mut Ctx, e: &Expr, whr: &str) -> Option<(Vec<Piece>, String)
 
 /// body = appending statements, then the tail
 fn body(cx: &mut Ctx, b: &Block, whr: &str) -> Option<(Vec<Piece>, String)> {
+    cx.quoted_locals.clear();
     // let-normal form (canon.rs): renamed or hoisted locals, destructured parameters and field shorthand do not show
     let nb = crate::canon::normalize_block(b);
     let b = &nb;
@@ -379,6 +414,26 @@ fn body(cx: &mut Ctx, b: &Block, whr: &str) -> Option<(Vec<Piece>, String)> {
         // `let args = <text>;` (constructors)
         if let Stmt::Local(l) = s {
             if let (Pat::Ident(i), Some(init)) = (&l.pat, &l.init) {
+                // `let r = quoted_string(p).unwrap();`
+                if let Expr::MethodCall(u) = strip_expr(&init.expr) {
+                    if u.method == "unwrap" && u.args.is_empty() {
+                        if let Expr::Call(c) = strip_expr(&u.receiver) {
+                            if tokens_of(&c.func) == "quoted_string" && c.args.len() == 1 {
+                                if let Expr::Path(p) = strip_expr(&c.args[0]) {
+                                    cx.quoted_locals.insert(i.ident.to_string(), path_str(&p.path));
+                                    continue;
+                                }
+                            }
+                        }
+                    }
+                }
+                // `let mut args = Vec::new() / Vec::with_capacity(..) / vec![]`: an empty buffer
+                if i.ident == "args" && init.diverge.is_none() {
+                    let t = tokens_of(strip_expr(&init.expr)).replace(' ', "");
+                    if t == "Vec::new()" || t.starts_with("Vec::with_capacity(") || t == "vec![]" {
+                        continue;
+                    }
+                }
                 if i.ident == "args" && init.diverge.is_none() {
                     pieces.extend(cx.text(&init.expr, whr)?);
                     continue;
@@ -399,7 +454,31 @@ pub struct Output {
 pub fn translate(repo: &Path) -> Output {
     let src = std::fs::read_to_string(repo.join("imap-proto/src/builders/command.rs")).unwrap();
     let file = syn::parse_file(&src).unwrap();
-    let mut cx = Ctx { helpers: BTreeMap::new(), kw: BTreeMap::new(), problems: vec![], pure_fns: BTreeMap::new() };
+    let mut cx = Ctx { helpers: BTreeMap::new(), kw: BTreeMap::new(), problems: vec![], pure_fns: BTreeMap::new(), pure_methods: BTreeMap::new(), cur_params: vec![], quoted_locals: BTreeMap::new() };
+    // inherent one-expression methods on the enums of types.rs (a keyword table moved next to its enum)
+    if let Ok(tsrc) = std::fs::read_to_string(repo.join("imap-proto/src/types.rs")) {
+        if let Ok(tfile) = syn::parse_file(&tsrc) {
+            for item in &tfile.items {
+                if let Item::Impl(im) = item {
+                    if im.trait_.is_some() {
+                        continue;
+                    }
+                    let ty = tokens_of(&im.self_ty).replace(' ', "");
+                    for it in &im.items {
+                        if let ImplItem::Fn(f) = it {
+                            let only_self = f.sig.inputs.len() == 1 && matches!(f.sig.inputs.first(), Some(FnArg::Receiver(_)));
+                            let nb = crate::canon::normalize_block(&f.block);
+                            if only_self && nb.stmts.len() == 1 {
+                                if let Stmt::Expr(e, None) = &nb.stmts[0] {
+                                    cx.pure_methods.insert((ty.clone(), f.sig.ident.to_string()), e.clone());
+                                }
+                            }
+                        }
+                    }
+                }
+            }
+        }
+    }
     // pass 0: free functions that are one expression of their parameters
     for item in &file.items {
         if let Item::Fn(f) = item {
@@ -432,6 +511,7 @@ pub fn translate(repo: &Path) -> Output {
     for item in &file.items {
         if let Item::Fn(f) = item {
             let ps = value_params(&f.sig);
+            cx.cur_params = ps.clone();
             if ps.first().map(|p| p.0 == "cmd" && p.1 == "&mutVec<u8>").unwrap_or(false) {
                 let whr = format!("fn {}", f.sig.ident);
                 let mut pieces = vec![];
@@ -481,7 +561,7 @@ pub fn translate(repo: &Path) -> Output {
                                     ReturnType::Type(_, t) => builder_type(t),
                                     _ => None,
                                 };
-                                match (body(&mut cx, &f.block, &whr), ret) {
+                                match ({ cx.cur_params = value_params(&f.sig); body(&mut cx, &f.block, &whr) }, ret) {
                                     (Some((pieces, next)), Some((rty, rst))) => ctors.push(Ctor { name: f.sig.ident.to_string(), params: value_params(&f.sig), pieces, ty: rty, state: rst, next }),
                                     (None, Some((rty, rst))) => {
                                         // the signature is enough for the harness wrapper; the Coq side sees an unknown piece
@@ -507,7 +587,7 @@ pub fn translate(repo: &Path) -> Output {
                                     ReturnType::Type(_, t) => builder_type(t),
                                     _ => None,
                                 };
-                                match (takes_self, body(&mut cx, &f.block, &whr), ret) {
+                                match (takes_self, { cx.cur_params = value_params(&f.sig); body(&mut cx, &f.block, &whr) }, ret) {
                                     (true, Some((pieces, _)), Some((rty, rst))) if rty == ty => {
                                         trans.push(Trans { ty: ty.clone(), from: st.clone(), meth: f.sig.ident.to_string(), params: value_params(&f.sig), pieces, to: rst })
                                     }
@@ -534,7 +614,7 @@ pub fn translate(repo: &Path) -> Output {
                         if let Some((ty, st)) = from_ty {
                             for it in &im.items {
                                 if let ImplItem::Fn(f) = it {
-                                    if let Some((pieces, next)) = body(&mut cx, &f.block, &whr) {
+                                    if let Some((pieces, next)) = { cx.cur_params = value_params(&f.sig); body(&mut cx, &f.block, &whr) } {
                                         finals.push(Final { ty: ty.clone(), state: st.clone(), pieces, next });
                                         done = true;
                                     } else {
